@@ -472,10 +472,8 @@ class IntervalTier(textgrid_tier.TextgridTier):
         )
         collisionReporter = utils.getErrorReporter(collisionReportingMode)
 
-        if not isinstance(entry, Interval):
-            interval = Interval(*entry)
-        else:
-            interval = entry
+        # Labels are normalized the same way the constructor normalizes them
+        interval = Interval(entry[0], entry[1], entry[2].strip())
 
         matchList = self.crop(
             interval.start, interval.end, CropCollision.LAX, False
